@@ -30,7 +30,7 @@ Histograms: nothing is assumed.  `BuildHistograms` is modelled and proved to cou
 command symbols and distance symbols written (`buildHistograms_inv`); the totals are ≤ MLEN + 1 ≤ 2^24 + 1,
 which is below the 2^25 bound C17 needs for its no-`u32`-wrap hypothesis.
 -/
-import BV.Lemmas.MetaBlockCode
+import BV.Lemmas.MetaBlockFast
 
 namespace BV.Props.C01MetaBlock
 open BV.Gen BV.Bits BV.Huffman BV.PrefixArith BV.Recoder BV.MetaBlock BV.HeaderSpec
@@ -88,6 +88,93 @@ theorem trivial_metablock_roundtrip (wo : WordOracle) (window : Nat) (large : Bo
     unfold replayCommands at hp
     rw [hdec] at hp
     simpa using hp
+
+/-- **fast_metablock_roundtrip** — `BrotliStoreMetaBlockFast` (quality ≤ 2), BOTH branches: `n_commands ≤ 128`
+(literal code from `BrotliBuildAndStoreHuffmanTreeFast`, the static command code of `StoreStaticCommandHuffmanTree`
+and the static distance code of `StoreStaticDistanceHuffmanTree`) and `n_commands > 128` (three codes from the
+fast builder).  Same statement as `trivial_metablock_roundtrip`: no panic, the RFC reader consumes exactly the
+emitted bits and outputs what `replayCommands` outputs.
+Extra hypothesis `hstatic`, needed only with the large-window distance alphabet: in the `≤ 128` commands branch
+every explicit distance symbol is `< 64` — the static distance code (`kStaticDistanceCodeDepth`, 64 entries) has no
+other symbols and the Rust code indexes it with the symbol (see `static_branch_panics_on_big_symbol`).  Without the
+large-window extension it follows from `cmdOK` (`fast_metablock_roundtrip_std`). -/
+theorem fast_metablock_roundtrip (wo : WordOracle) (window : Nat) (large : Bool) (ring : Bytes)
+    (start mask : Nat) (mb : Bytes) (isLast : Bool) (cmds : List Cmd) (hist : Bytes) (dc : List Int)
+    (w : List Bool)
+    (hR : RingHolds ring mask start mb) (h256 : ∀ b ∈ mb, b < 256)
+    (h1 : 1 ≤ mb.length) (h2 : mb.length ≤ 2 ^ 24) (hst : start < 2 ^ 64)
+    (hIP : inputPairCheck ring start mb.length mask = .ok ())
+    (hok : ∀ c ∈ cmds, cmdOK (distAlphabetSize large 0 0) 0 0 c = true)
+    (hlock : lockstep wo 0 0 window mb ⟨hist, dc, 0⟩ 0 cmds = true)
+    (hstatic : cmds.length ≤ 128 → ∀ c ∈ cmds, copyLen c ≠ 0 → c.cmdPrefix ≥ 128 → c.distPrefix % 1024 < 64) :
+    ∃ bits out ring',
+      storeMetaBlockFast ring start mb.length mask isLast (distAlphabetSize large 0 0) cmds w = .ok (w ++ bits) ∧
+      replayCommands wo 0 0 window mb dc hist cmds = some out ∧
+      (∀ rest, readMetaBlockFull wo window large w.length ⟨hist, dc⟩ (bits ++ rest)
+        = some (⟨out, ring'⟩, isLast, (w ++ bits).length, rest)) ∧
+      (replayCommands wo 0 0 window mb dc hist cmds = some (hist ++ mb) → out = hist ++ mb) := by
+  obtain ⟨bits, fin, e, hdec, _, hrd⟩ := fast_core wo window large ring start mask mb isLast cmds hist dc w
+    hR h256 h1 h2 (by unfold two64; simpa using hst) hIP hok hlock hstatic
+  refine ⟨bits, fin.out, fin.ring, e, ?_, hrd, ?_⟩
+  · unfold replayCommands; rw [hdec]; rfl
+  · intro hp
+    unfold replayCommands at hp
+    rw [hdec] at hp
+    simpa using hp
+
+/-- without the large-window extension `hstatic` is part of `cmdOK` -/
+theorem fast_metablock_roundtrip_std (wo : WordOracle) (window : Nat) (ring : Bytes)
+    (start mask : Nat) (mb : Bytes) (isLast : Bool) (cmds : List Cmd) (hist : Bytes) (dc : List Int)
+    (w : List Bool)
+    (hR : RingHolds ring mask start mb) (h256 : ∀ b ∈ mb, b < 256)
+    (h1 : 1 ≤ mb.length) (h2 : mb.length ≤ 2 ^ 24) (hst : start < 2 ^ 64)
+    (hIP : inputPairCheck ring start mb.length mask = .ok ())
+    (hok : ∀ c ∈ cmds, cmdOK 64 0 0 c = true)
+    (hlock : lockstep wo 0 0 window mb ⟨hist, dc, 0⟩ 0 cmds = true) :
+    ∃ bits out ring',
+      storeMetaBlockFast ring start mb.length mask isLast 64 cmds w = .ok (w ++ bits) ∧
+      replayCommands wo 0 0 window mb dc hist cmds = some out ∧
+      (∀ rest, readMetaBlockFull wo window false w.length ⟨hist, dc⟩ (bits ++ rest)
+        = some (⟨out, ring'⟩, isLast, (w ++ bits).length, rest)) ∧
+      (replayCommands wo 0 0 window mb dc hist cmds = some (hist ++ mb) → out = hist ++ mb) := by
+  have := fast_metablock_roundtrip wo window false ring start mask mb isLast cmds hist dc w hR h256 h1 h2 hst hIP
+    hok hlock (by
+      intro _ c hc _ _
+      have hk := hok c hc
+      simp only [cmdOK, Bool.and_eq_true, decide_eq_true_eq] at hk
+      exact hk.1.1.2)
+  exact this
+
+/-- the static branch of the fast writer on a distance symbol `≥ 64` (possible only with the large-window
+alphabet): the model panics — `kStaticDistanceCodeDepth[dist_code]` is an index out of range in the Rust code.
+The command is the one `Command::new` builds for insert 1, copy 7, distance 2^26 + 5 (symbol 64, 25 extra bits);
+it satisfies `cmdOK`.  Confirmed on the real code (`/verif/proposed/fast-static-distance-large-window.md`). -/
+theorem static_branch_panics_on_big_symbol :
+    cmdOK 140 0 0 ⟨1, 7, 8, 141, 25664⟩ = true ∧
+    storeMetaBlockFast [65, 65, 65, 65, 65, 65, 65, 65] 0 8 7 true 140 [⟨1, 7, 8, 141, 25664⟩] [] = .panic := by
+  constructor
+  · decide
+  · decide +kernel
+
+/-! ### composing meta-blocks: what `BV/Props/C01.lean` can connect to -/
+
+/-- a piece of the stream that the RFC reader, started at bit position `pos` in decoder state `s`, consumes
+exactly, ending at `pos'` in state `s'` (whatever follows) -/
+def ReadsTo (wo : WordOracle) (window : Nat) (large : Bool) (pos : Nat) (s : RdSt) (bits : List Bool)
+    (last : Bool) (pos' : Nat) (s' : RdSt) : Prop :=
+  ∀ rest, readMetaBlockFull wo window large pos s (bits ++ rest) = some (s', last, pos', rest)
+
+/-- a non-last piece followed by more: the meta-block loop continues behind it from the new state -/
+theorem readMetaBlocks_step (wo : WordOracle) (window : Nat) (large : Bool) (pos pos' : Nat) (s s' : RdSt)
+    (bits rest : List Bool) (f : Nat) (h : ReadsTo wo window large pos s bits false pos' s') :
+    readMetaBlocks wo window large (f + 1) pos s (bits ++ rest) = readMetaBlocks wo window large f pos' s' rest := by
+  simp only [readMetaBlocks, h rest]
+
+/-- a last piece ends the stream -/
+theorem readMetaBlocks_last (wo : WordOracle) (window : Nat) (large : Bool) (pos pos' : Nat) (s s' : RdSt)
+    (bits rest : List Bool) (f : Nat) (h : ReadsTo wo window large pos s bits true pos' s') :
+    readMetaBlocks wo window large (f + 1) pos s (bits ++ rest) = some (s', rest) := by
+  simp only [readMetaBlocks, h rest]
 
 /-- `RingHolds` from a finite check -/
 theorem ringHolds_of_check (ring : Bytes) (mask start : Nat) (mb : Bytes)
